@@ -64,6 +64,12 @@ DAG_EXPORT = ["dag_to_dict", "dag_to_dataframe"]
 DAG_COPY = ["dag_copy", "dag_deepcopy", "dag_shallow_copy"]
 DAG_FNS = DAG_READ + DAG_EXPORT + DAG_COPY
 ALL_FNS = RENDER + ITERS + SEARCH + EXPORT + TREEFN + TREEFN2 + DAG_FNS
+MUST_RETURN = {"node_copy", "deepcopy", "shallow_copy", "clone_tree", "get_subtree", "prune_tree",
+               "preorder_iter", "postorder_iter", "levelorder_iter", "levelordergroup_iter", "zigzag_iter", "zigzaggroup_iter",
+               "inorder_iter", "print_tree", "yield_tree", "hprint_tree", "hyield_tree", "show", "hshow",
+               "tree_to_dict", "tree_to_dataframe", "find_names", "find_attrs", "find_children", "find_paths",
+               "dag_copy", "dag_deepcopy", "dag_shallow_copy", "dag_iterator", "dag_to_list", "dag_to_dict",
+               "dag_ancestors", "dag_descendants", "dag_siblings", "copy_nodes"}
 NODE_ONLY = {"show", "hshow", "tree_to_newick", "tree_to_mermaid", "tree_to_dot", "find_relative_path",
              "find_relative_paths", "get_tree_diff_first", "get_tree_diff_second",
              "copy_nodes_from_tree_to_tree", "copy_and_replace_nodes_from_tree_to_tree", "copy_nodes"}
@@ -76,7 +82,8 @@ NAME_POOLS = {
     "affix": ["a", "xa", "ab", "b", "bc", "a", "abc", "b", "c", "xa", "ca", "bb"],
     "special": ["a b", "(", "+", "a'", "0", "a1", "a", "10", "z", "q", "é", "_x"],
 }
-ATTR_VALUES = [1, 2, 90, "x", "yy", None, True, [1, 2], [3], ["p", "q"], [[1], 2], {"k": [1]}, {"u": 1}, [], 2.5]
+ATTR_VALUES = [1, 2, 90, "x", "yy", None, True, [1, 2], [3], ["p", "q"], [[1], 2], {"k": [1]}, {"u": 1}, [], 2.5,
+               0, "", False, {}]
 
 
 # ---------------------------------------------------------------------------------------------
@@ -88,7 +95,29 @@ def _bt():
     return bigtree
 
 
-def _build(cls, spec, sep="/"):
+_SUB = {}
+_KEEP = []          # suspended generators of the current case (kept alive while the input is inspected)
+
+
+def _subclass():
+    """a user subclass of Node: extra class attribute, a property, an overriding method"""
+    if "c" not in _SUB:
+        bt = _bt()
+
+        class SubNode(bt.Node):
+            kind = "sub"
+
+            @property
+            def label(self):
+                return self.node_name.upper()
+
+            def describe(self, *a, **k):
+                return super().describe(*a, **k)
+        _SUB["c"] = SubNode
+    return _SUB["c"]
+
+
+def _build(cls, spec, sep="/", sub=False):
     """spec: list of [parent index or None, name, attrs dict, slot]; indices are pre-order."""
     bt = _bt()
     nodes = []
@@ -104,7 +133,8 @@ def _build(cls, spec, sep="/"):
         if cls == "BinaryNode":
             x = bt.BinaryNode(name, **attrs)
         else:
-            x = bt.Node(name, sep=sep, **attrs) if par is None else bt.Node(name, **attrs)
+            N = _subclass() if sub else bt.Node
+            x = N(name, sep=sep, **attrs) if par is None else N(name, **attrs)
         nodes.append(x)
     for i, (par, name, attrs, slot) in enumerate(spec):
         if par is None:
@@ -398,6 +428,29 @@ def dag_members(r, closure=True):
     return out
 
 
+def node_at(root, path, sep):
+    """the node at a full path, found by walking names (no bigtree search function involved)"""
+    parts = [x for x in path.split(sep) if x != ""]
+    if not parts or _name(root) != parts[0]:
+        return None
+    x = root
+    for nm in parts[1:]:
+        nxt = [c for c in _children(x) if c is not None and c is not _ERR and _name(c) == nm]
+        if len(nxt) != 1:
+            return None
+        x = nxt[0]
+    return x
+
+
+def pairs_view(ctx, case, aux):
+    out = []
+    for anchor, path, exact in case.get("pairs", []):
+        x = node_at(aux[0], path, case.get("sep2", "/")) if aux else None
+        t = {"id": ctx.n, "nm": "<missing>", "a": [], "kl": 0, "k": []} if x is None else _rt(ctx, x, set(), [400])
+        out.append([anchor, bool(exact), t])
+    return out
+
+
 def dres_view(ctx, members):
     return [[ctx.node_id(x), _entry(ctx, x)] for x in members]
 
@@ -625,7 +678,15 @@ def _call(case, nodes, aux):
                 t.hshow(**o)
         return "reader", buf.getvalue()
     if fn == "yield_tree":
-        return "reader", [(a, b) for a, b, _ in export.yield_tree(t, **o)]
+        kw = dict(o)
+        take = kw.pop("take", None)
+        it = iter(export.yield_tree(t, **kw))
+        if take is not None:
+            import itertools
+            got = [(a, b) for a, b, _ in itertools.islice(it, take)]
+            _KEEP.append(it)
+            return "reader", got
+        return "reader", [(a, b) for a, b, _ in it]
     if fn == "hyield_tree":
         return "reader", list(export.hyield_tree(t, **o))
     if fn == "tree_to_newick":
@@ -648,7 +709,14 @@ def _call(case, nodes, aux):
             kw["stop_condition"] = _cond(o["stop"])
         if o.get("max_depth"):
             kw["max_depth"] = o["max_depth"]
-        return "nodes", flat(list(getattr(iterators, fn)(t, **kw)))
+        it = iter(getattr(iterators, fn)(t, **kw))
+        if "take" in o:
+            # the generator stays suspended (and alive) while the input is inspected
+            import itertools
+            got = list(itertools.islice(it, o["take"]))
+            _KEEP.append(it)
+            return "nodes", flat(got)
+        return "nodes", flat(list(it))
     if fn in SEARCH:
         f = getattr(search, fn)
         if fn in ("findall", "find"):
@@ -701,7 +769,9 @@ def _call(case, nodes, aux):
         if fn == "dag_to_list":
             return "reader", dexport.dag_to_list(t)
         if fn == "dag_to_dot":
-            return "reader", dexport.dag_to_dot(t, **o).to_string()
+            kw = dict(o)
+            arg = [t] if kw.pop("as_list", False) else t
+            return "reader", dexport.dag_to_dot(arg, **kw).to_string()
         if fn == "dag_ancestors":
             return "nodes", list(t.ancestors)
         if fn == "dag_descendants":
@@ -723,9 +793,10 @@ def _call(case, nodes, aux):
 
 def run_impl(prop, case):
     cls = case["cls"]
+    del _KEEP[:]
     dag = cls == "DAGNode"
-    nodes = _build(cls, case["tree"], case.get("sep", "/"))
-    aux = _build("Node", case["tree2"], case.get("sep2", "/")) if case.get("tree2") else []
+    nodes = _build(cls, case["tree"], case.get("sep", "/"), sub=case.get("sub_cls", False))
+    aux = _build("Node", case["tree2"], case.get("sep2", "/"), sub=case.get("sub_cls", False)) if case.get("tree2") else []
     roots = [x for x, sp in zip(nodes, case["tree"]) if not sp[0]] if dag else None
     if case["fn"] == "copy_nodes":
         # the whole tree is built; the *input* is the subtree that gets copied (ids 0..n-1), every other
@@ -750,7 +821,7 @@ def run_impl(prop, case):
     obs = {"code": code, "kind": kind if code == 0 else "raised", "n": ctx.n, "before": before, "after": after,
            "in_lists": in_lists, "in_vals": in_vals, "out_lists": [], "out_vals": [],
            "ret_nodes": None, "result": None, "after_mr": None, "res1": None, "res2": None, "data": None,
-           "dres": None, "dres12": None,
+           "dres": None, "dres12": None, "pairs": [],
            "sep_changed": getattr(nodes[0], "_sep", None) != sep_before}
     m1, m2 = case["mut_res"], case["mut_in"]
     if code != 0:
@@ -775,6 +846,8 @@ def run_impl(prop, case):
         mutate_dag(list(nodes), m2, "i")
         obs["dres12"] = [d1, dres_view(ctx, members)]
     elif kind in ("tree", "tree_inplace", "tree_own") and value is not None and hasattr(value, "children"):
+        if kind == "tree_inplace":
+            obs["pairs"] = pairs_view(ctx, case, aux)
         view, top = result_view(ctx, value, own=(kind == "tree_own"))
         obs["result"] = view
         obs["out_lists"], obs["out_vals"] = result_objs(ctx, top)
@@ -949,6 +1022,9 @@ def clauses(case, obs):
         cl["indep_result_attrs"] = _dres_attrs(obs["dres12"][0]) == _dres_attrs(obs["dres12"][1])
     if obs["kind"] in ("tree", "tree_inplace", "tree_own", "data", "dag", "dag_one"):
         cl["fresh_vals"] = not (set(obs["in_vals"]) & set(obs["out_vals"]))
+    for anchor, exact, t in obs.get("pairs", []):
+        ok = anchor < n and _embeds(_strip(t), _sub_rt(b, anchor), exact)
+        cl["equal_part"] = cl.get("equal_part", True) and ok
     if obs["after_mr"] is not None:
         cl["indep_input_links"] = _sig_links(b) == _sig_links(obs["after_mr"])
         cl["indep_input_attrs"] = _sig_attrs(b) == _sig_attrs(obs["after_mr"])
@@ -1107,6 +1183,8 @@ def emit(prop, case, obs):
         "None" if obs["data"] is None else f"Some ({obs['data'][0]}, {obs['data'][1]})",
         "None" if obs.get("dres") is None else f"Some ({_cdres(obs['dres'][0])}, {int(obs['dres'][1])})",
         "None" if obs.get("dres12") is None else f"Some ({_cdres(obs['dres12'][0])}, {_cdres(obs['dres12'][1])})",
+        clist(f"({int(a)}, {cbool(ex)}, {_crt(t)})" for a, ex, t in obs.get("pairs", [])),
+        cbool(case.get("expect_ok", False)),
     ]
     return "EC " + " ".join(f"({p})" for p in parts)
 
@@ -1282,8 +1360,25 @@ def gen_dag_case(rng, fn):
             o["attr_dict"] = {k: k.upper() for k in rng.sample(["age", "w"], rng.randint(1, 2))}
     elif fn == "dag_to_dot":
         o["rankdir"] = rng.choice(["TB", "LR"])
-        if rng.random() < 0.3:
+        if rng.random() < 0.5:
             o["node_colour"] = "gold"
+        if rng.random() < 0.4:
+            o["node_shape"] = "box"
+        if rng.random() < 0.4:
+            o["edge_colour"] = "blue"
+        if rng.random() < 0.5:
+            o["node_attr"] = "nstyle"
+        if rng.random() < 0.4:
+            o["edge_attr"] = "estyle"
+        if rng.random() < 0.4:
+            o["as_list"] = True
+        for sp in spec:
+            if rng.random() < 0.6:
+                sp[2]["nstyle"] = rng.choice([{"fillcolor": "red"}, {"shape": "circle"}, {}])
+            if rng.random() < 0.5:
+                sp[2]["estyle"] = rng.choice([{"label": "e"}, {"style": "bold"}, {}])
+    if fn in MUST_RETURN:
+        case["expect_ok"] = True
     return case
 
 
@@ -1306,9 +1401,10 @@ def gen_copy_nodes_case(rng):
             o["overriding"] = True
         if rng.random() < 0.25:
             o["delete_children"] = True
-        if rng.random() < 0.2:
+        if rng.random() < 0.2 or not _unambiguous(paths, range(n), j):
             o["with_full_path"] = True
         return {"cls": "Node", "fn": "copy_nodes", "tree": spec, "sep": sep, "start": 0, "sub": sub, "opts": o,
+                "expect_ok": True,
                 "mut_res": _ints(rng), "mut_in": _ints(rng), "stratum": f"{shape}/{pool}"}
     raise RuntimeError("no copy_nodes case")
 
@@ -1353,6 +1449,8 @@ def gen_case(rng, fn=None, cls=None, nmax=9):
                 o["attr_bracket"] = ["(", ")"]
         elif fn == "yield_tree":
             o["style"] = rng.choice(["const", "ansi", "ascii", "rounded", "double"])
+            if rng.random() < 0.25:
+                o["take"] = rng.randint(0, 2)
         else:
             o["intermediate_node_name"] = rng.random() < 0.7
             o["style"] = rng.choice(["const", "ansi", "ascii", "rounded", "double"])
@@ -1375,23 +1473,34 @@ def gen_case(rng, fn=None, cls=None, nmax=9):
         if rng.random() < 0.2:
             o["node_shape"] = rng.choice(["rhombus", "circle"])
     elif fn == "tree_to_dot":
-        if rng.random() < 0.2:
+        if rng.random() < 0.5:
             o["as_list"] = True
-        if rng.random() < 0.2:
+        if rng.random() < 0.5:
             o["edge_colour"] = "blue"
+        if rng.random() < 0.5:
+            o["node_shape"] = "box"
+        if rng.random() < 0.6:
+            o["node_attr"] = "nstyle"
+        if rng.random() < 0.5:
+            o["edge_attr"] = "estyle"
+        for sp in spec:
+            if rng.random() < 0.6:
+                sp[2]["nstyle"] = rng.choice([{"fillcolor": "red"}, {"shape": "circle"}, {"style": "filled", "fillcolor": "green"}, {}])
+            if rng.random() < 0.5:
+                sp[2]["estyle"] = rng.choice([{"label": "e"}, {"style": "bold"}, {}])
         o["directed"] = rng.random() < 0.7
-        if rng.random() < 0.3:
+        if rng.random() < 0.5:
             o["node_colour"] = "gold"
-        if rng.random() < 0.3:
+        if "node_attr" not in o and rng.random() < 0.3:
             o["callable_attr"] = True
-        if rng.random() < 0.2:
-            o["node_attr"] = "meta"
     elif fn in ITERS:
         if rng.random() < 0.5:
             o["filter"] = _rand_cond(rng, spec)
         if rng.random() < 0.3:
             o["stop"] = _rand_cond(rng, spec)
         o["max_depth"] = md
+        if rng.random() < 0.25:
+            o["take"] = rng.randint(0, 2)
     elif fn in ("findall", "find"):
         o["cond"] = _rand_cond(rng, spec)
         if md:
@@ -1506,7 +1615,30 @@ def gen_case(rng, fn=None, cls=None, nmax=9):
         # keep the from-nodes unrelated (none inside another) so that the call is meaningful
         fr = [j for j in fr if not any(j != i and j in _subtree(spec, i) for i in fr)]
         o["from_paths"] = [paths[j] for j in fr]
-        if fn == "copy_nodes_from_tree_to_tree":
+        if fn == "copy_nodes_from_tree_to_tree" and n >= 3 and rng.random() < 0.45:
+            # several pairs, overlapping on purpose (nested from-nodes, the same node twice); every pair gets
+            # its own new destination so that each copy has to equal the source subtree
+            k = rng.choice([2, 2, 3])
+            fr = [rng.randrange(1, n)]
+            while len(fr) < k:
+                r = rng.random()
+                last = fr[-1]
+                if r < 0.35 and spec[last][0] not in (None, 0):
+                    fr.append(spec[last][0])                       # then its parent
+                elif r < 0.55:
+                    fr.append(last)                                # the same node again
+                elif r < 0.75 and len(_subtree(spec, last)) > 1:
+                    fr.append(rng.choice(_subtree(spec, last)[1:]))    # a node inside it
+                else:
+                    fr.append(rng.randrange(1, n))
+            dc = rng.random() < 0.2
+            o["from_paths"] = [paths[j] for j in fr]
+            o["to_paths"] = [p2[0] + sep + f"d{i}" + sep + spec[j][1] for i, j in enumerate(fr)]
+            if dc:
+                o["delete_children"] = True
+            case["pairs"] = [[j, o["to_paths"][i], not dc] for i, j in enumerate(fr)]
+            case["expect_ok"] = True
+        elif fn == "copy_nodes_from_tree_to_tree":
             dest = []
             for j in fr:
                 b = rng.randrange(len(p2))
@@ -1539,7 +1671,18 @@ def gen_case(rng, fn=None, cls=None, nmax=9):
                 o["delete_children"] = True
             if rng.random() < 0.2:
                 o["skippable"] = True
+            if m == 1:
+                # the copy takes the place of the destination node, under the from-node's name
+                j2 = cands2[0]
+                case["pairs"] = [[fr[0], p2[spec2[j2][0]] + sep + spec[fr[0]][1], not o.get("delete_children")]]
+                case["expect_ok"] = True
         o["sep"] = sep
+        if case.get("expect_ok") and any(not _unambiguous(paths, range(n), j) for j in fr):
+            o["with_full_path"] = True       # from-paths are looked up by suffix unless this is set
+    if cls == "Node" and rng.random() < 0.15:
+        case["sub_cls"] = True
+    if fn in MUST_RETURN:
+        case["expect_ok"] = True
     return case
 
 
@@ -1668,8 +1811,12 @@ def rule(prop):
             "dag_to_list/dict/dataframe/dot, ancestors/descendants/siblings/go_to) x random option combinations x random start node "
             "on random Node/BinaryNode trees (3-9 nodes, shapes wide/deep/mixed/path/star, name pools distinct/repeated/affix/special) "
             "and random DAGs (3-8 nodes, up to 3 parents), scalar and mutable list/dict attribute values; signature before/after, "
-            "identity sets, result tree / DAG, then mutation batches on each side; non-trivial = >= 3 nodes and the call returned "
-            "normally; distinct by canonical JSON hash")
+            "identity sets, result tree / DAG, then mutation batches on each side; multi-pair tree-to-tree copies (nested from-nodes, "
+            "same node twice) with the copy at every destination compared to its source subtree; tree_to_dot / dag_to_dot on a single "
+            "tree and on a list, with style dicts stored on the nodes and defaults set; generators also inspected while suspended "
+            "after 0-2 items; a user subclass of Node in 15% of the Node cases; falsy attribute values (0, '', False, [], {}); calls "
+            "that are valid by construction must return; non-trivial = >= 3 nodes and the call returned normally; distinct by "
+            "canonical JSON hash")
 
 
 def explain(prop, case, obs, flags):
@@ -1710,6 +1857,17 @@ def partial_clauses(prop):
         "private field _DAGNode__path of the start node (not a public attribute, not raised)",
         "not exercised: tree_to_pillow / tree_to_pillow_graph (need a font download), plot / reingold_tilford (write x, y into "
         "the input by design, C19), the workflows",
+        "accepted blind spots of the correspondence: (a) the CONTENT of what readers / exporters / get_tree_diff return is not "
+        "compared (C04, C06, C09, C15, C17, C18) - only aliasing with, and independence from, the input; iterators / search: "
+        "only 'returns nodes of the input'; (b) a call that raises is only required to leave the input unchanged, except for the "
+        "functions / cases that are valid by construction (MUST_RETURN, multi-pair copies), which must return; (c) private "
+        "non-link fields (_sep, _DAGNode__path, any other underscore field) are outside the signature; an attribute re-bound to "
+        "an equal value is not a change; (d) BaseNode without names and argument container types (tuple / generator for "
+        "attr_list, from_paths) are not varied, arguments other than the tree are not re-inspected after the call; (e) a "
+        "mutate-and-restore inside a call is only visible at the points where the harness looks (after the call, and while a "
+        "generator is suspended), not inside filter / stop callbacks; (f) copy_nodes / copy_and_replace with several pairs "
+        "whose DESTINATIONS interfere, merge_children / merge_leaves destinations: only 'source unchanged' and freshness; "
+        "(g) one mutation batch per side, no second call on the same tree",
     ]
 
 
